@@ -27,7 +27,9 @@ Definition dec_op (v : list int) : option op :=
       if Uint63.eqb c 6 then Some OReap
       else if Uint63.eqb c 7 then Some OLeaveBegin
       else if Uint63.eqb c 9 then Some OIncBegin
-      else if Uint63.eqb c 10 then Some (OLeave 1000000) else None
+      else if Uint63.eqb c 10 then Some (OLeave 1000000)
+      (* Shutdown: membership processing, timers and callbacks go on exactly as before *)
+      else if Uint63.eqb c 12 then Some (OAdvance 0) else None
   | [c; a1; a2; a3] =>
       if Uint63.eqb c 2 then Some (OSuspect (ni a1) (ni a2) (ni a3))
       else if Uint63.eqb c 3 then Some (ODead (ni a1) (ni a2) (ni a3)) else None
@@ -63,7 +65,7 @@ Record orec := mkOR { or_name : N; or_rec : rec; or_timer : bool }.
 Record osnap := mkO {
   o_pan : bool; o_linc : N; o_leaving : bool; o_score : Z; o_nn : Z;
   o_recs : list orec; o_orph : N; o_bq : list (N * bmsg); o_nq : N;
-  o_evs : list event; o_members : list (N * (N * N)); o_now : Z; o_conc : bool }.
+  o_evs : list event; o_members : list (N * (N * N)); o_now : Z; o_conc : bool; o_chan : bool }.
 
 Definition since_of (i : int) : Z := if Uint63.eqb i 0 then zero_time else zi i - 1.
 
@@ -136,7 +138,7 @@ Definition dec_obs (v : list int) : option osnap :=
               | Some (es, nm :: rest4) =>
                   match dec_mem (nati nm) rest4 with
                   | Some (mems, [nw; cc]) =>
-                      Some (mkO (bi pan) (ni li) (bi lv) (zi sc) (zi nn) rs (ni orph) bs (ni nq) es mems (zi nw) (bi cc))
+                      Some (mkO (bi pan) (ni li) (bi lv) (zi sc) (zi nn) rs (ni orph) bs (ni nq) es mems (zi nw) (Z.odd (zi cc)) (2 <=? zi cc))
                   | _ => None
                   end
               | _ => None
@@ -192,7 +194,7 @@ Definition snap_of (s : nstate) (evs : list event) : osnap :=
       (sort_by or_name (map (fun p => mkOR (fst p) (snd p) (match live_timer (fst p) (timers s) with Some _ => true | None => false end)) (recs s)))
       0 (sort_by fst (bq s)) (N.of_nat (length (bq s)))
       (filter (fun e => match e with EvPanic => false | _ => true end) evs)
-      (sort_by fst (members s)) (now s) false.
+      (sort_by fst (members s)) (now s) false false.
 
 (* first differing field: 0 = equal *)
 Definition snap_diff (m o : osnap) : N :=
@@ -581,6 +583,7 @@ Fixpoint monitor_from (sel : N) (c : cfg) (i : N) (pre : osnap) (view : list (N 
       else
         let '(gok, view') := replay (o_evs post) view in
         let c7 := if o_conc post then 132%N
+                  else if o_chan post then 133%N
                   else if negb gok then 131%N
                   else if negb (mem_eqb (sort_by fst view') (o_members post)) then 130%N else 0%N in
         let code := first_nz (map (code_sel sel)
